@@ -526,6 +526,15 @@ impl Monitors {
                             if let Some(f) = publish_content_diff(now_p, old_p) {
                                 self.viol("C04", "C04.R2d-retransmission-content", sig(&[("field", f.into())]), rec.index, format!("op {}: retransmission differs in {}", tag, f));
                             }
+                            // the topic is part of the application content: what a conformant server
+                            // reconstructs on THIS connection (its alias table starts empty) must be
+                            // the topic the application supplied
+                            if let OpBody::Publish(spec) = &op.spec.body {
+                                let recon: Option<String> = if !now_p.topic.is_empty() { Some(now_p.topic.clone()) } else { now_p.topic_alias.and_then(|a| self.cm(c).alias_out.get(&a).cloned()) };
+                                if recon.as_deref() != Some(spec.topic.as_str()) {
+                                    self.viol("C04", "C04.R2d-retransmission-content", sig(&[("field", "topic".into())]), rec.index, format!("op {}: the retransmission lets the server reconstruct topic {:?}, the application supplied {:?}", tag, recon, spec.topic));
+                                }
+                            }
                         }
                     }
                 }
@@ -579,7 +588,14 @@ impl Monitors {
                 let cmon = self.conn.entry(c).or_default();
                 if op.kind.is_publish() { cmon.inflight_publishes.insert(tag); }
                 cmon.outstanding_ackable.insert(tag);
-                cmon.inflight_publishes.retain(|t| by_tag.get(t).map(|i| !ops[*i].resolved_before(rec.index)).unwrap_or(false));
+                // a QoS>0 publish stops counting against the receive maximum once it is resolved - except
+                // when the client reported success on a *successful* PUBREC (reason < 0x80): the server
+                // still holds that message until PUBCOMP, so it is not "completed" in any reading
+                cmon.inflight_publishes.retain(|t| by_tag.get(t).map(|i| {
+                    let o = &ops[*i];
+                    if !o.resolved_before(rec.index) { return true; }
+                    o.completions.iter().any(|(s, _, out)| *s < rec.index && matches!(out, OutcomeView::Pubrec(a) if a.reason < 0x80))
+                }).unwrap_or(false));
                 cmon.outstanding_ackable.retain(|t| by_tag.get(t).map(|i| !ops[*i].resolved_before(rec.index)).unwrap_or(false));
                 let inflight = cmon.inflight_publishes.len();
                 let outstanding = cmon.outstanding_ackable.len();
@@ -992,6 +1008,17 @@ impl Monitors {
                                 self.viol("C11", "C11.R2-accepted-after-error", sig(&[("event", rec.event.kind().into())]), rec.index, format!("{} accepted after a connection error", rec.event.kind()));
                             }
                         }
+                        _ => {}
+                    }
+                }
+            }
+        }
+        if let Event::Deliver(_) = rec.event {
+            if rec.state_before == EngineState::PendingDisconnect {
+                for (c, ii) in &delta.new_inbound {
+                    match &world.conns[*c].inbound[*ii].packet {
+                        rf::Packet::Pingresp => self.count("c11.pingresp_while_disconnect_pending"),
+                        rf::Packet::Puback(_) | rf::Packet::Pubrec(_) | rf::Packet::Pubcomp(_) | rf::Packet::Suback(_) | rf::Packet::Unsuback(_) => self.count("c11.ack_while_disconnect_pending"),
                         _ => {}
                     }
                 }
